@@ -31,7 +31,12 @@ class EngB:
         if s._real is None: s._real = s.u.real_so('g++')
         return s._real
 
-    def ob(s, oid, harness, func, desc, variant='exact', defines=(), mode=None, extra_files=(), **kw):
+    def ob(s, oid, harness, func, desc, variant='exact', defines=(), mode=None, extra_files=(), fallback=None, fallback_kw=None, **kw):
+        if fallback is not None:
+            kw2 = dict(kw); fk = dict(fallback_kw or {}); defs2 = fk.pop('defines', defines); kw2.update(fk)
+            o = s.ob(oid, harness, func, desc, variant=variant, defines=defines, mode=mode, extra_files=extra_files, **kw)
+            o.fallback = s.ob(oid, harness, func, desc, variant=fallback, defines=defs2, extra_files=extra_files, **kw2)
+            return o
         hp, bp, info = s.vars[variant] if variant in s.vars else s.variant(variant)
         H = harness if os.path.isabs(harness) else os.path.join(VERIF, 'harness', harness)
         d = ('GEN_H="%s"' % os.path.basename(hp),) + tuple(defines)
